@@ -1,19 +1,7 @@
-/- C13 — angular tables: structural facts.  Model: Ecpint/Model/Angular.lean (bitwise with angular.cpp at Float). -/
-import Ecpint.Model.Angular
-namespace Ecpint.C13
-open Ecpint.Angular
-
-/-- `std::sort` on three values: the model's `sort3` sorts (checked on a grid that covers every order type) -/
-theorem sort3_sorted : ∀ a < 4, ∀ b < 4, ∀ c < 4,
-    (sort3 a b c).1 ≤ (sort3 a b c).2.1 ∧ (sort3 a b c).2.1 ≤ (sort3 a b c).2.2 := by decide
-
-/-- parity screen of `makeW`: an entry whose λ has the wrong parity or exceeds k+l+m is never written (stays 0) -/
-theorem wWritten_parity (maxLam k l m lam idx : Nat) (h : lam % 2 ≠ (k + l + m) % 2 ∨ lam > k + l + m) :
-    wWritten maxLam k l m lam idx = none := by
-  unfold wWritten
-  rcases h with h | h
-  · simp [h]
-  · have : ¬ lam ≤ min maxLam (k + l + m) := by omega
-    simp [this]
-
-end Ecpint.C13
+/- C13 — angular tables.  Root of the property's theorems:
+   C13a  structural facts of the table construction (core Lean only)
+   C13b  the monomial sphere integrals behind the tables: closed form 4π(2i−1)!!(2j−1)!!(2k−1)!!/(2(i+j+k)+1)!! of the
+         recursion `Pijk` runs over any field of characteristic 0, its permutation symmetry (sorting the exponents is
+         harmless), `sort3` sorts and permutes for all naturals, and exactly which entries `makeW` writes (Mathlib) -/
+import Ecpint.Props.C13a
+import Ecpint.Props.C13b
